@@ -111,6 +111,15 @@ pub fn run(o: &Opts) -> serde_json::Value {
             }
             steps.push(Step::Read);
         }
+        // read_text decodes the span: only meaningful for input the decoder in force can decode
+        // (UTF-8 without the encoding feature); otherwise use read_to_end, which reports the span only
+        if std::str::from_utf8(&input).is_err() {
+            for st in steps.iter_mut() {
+                if matches!(st, Step::ReadText) {
+                    *st = Step::ReadToEnd;
+                }
+            }
+        }
         let n = input.len();
         let bom_like = n >= 1 && matches!(input[0], 0xEF | 0xFE | 0xFF | 0x00 | b'<');
         let mut cuts = gen::random_cuts(&mut rng, n);
